@@ -40,11 +40,15 @@ def _get_axes(*arrays):
             axis = o.axes[dim]
 
             # update values
-            if common_axis is None or (common_axis.size==1 and axis.size > 1):
+            if common_axis is None or (common_axis.size==1 and axis.size > 1) \
+                    or (common_axis.size==1 and axis.size==1 and common_axis.values[0] is None):
                 common_axis = axis
 
-            # Test alignment for non-singleton axes
-            if not (axis.size == 1 or np.all(axis.values==common_axis.values)):
+            # Test alignment: a singleton axis is only compatible with a longer axis (it is 
+            # broadcast) or with an unlabelled (newly inserted) singleton
+            if axis.size == 1 and (common_axis.size > 1 or axis.values[0] is None):
+                continue
+            if axis.size != common_axis.size or not np.all(axis.values==common_axis.values):
                 raise ValueError("axes are not aligned")
 
         # append new axis
